@@ -91,7 +91,9 @@ func (r *Run) NetEvents(p *NetPolicy) []Ev {
 			continue
 		}
 		d := d
-		evs = append(evs, Ev{Kind: "dgram", Desc: fmt.Sprintf("#%d %s>%s %dB", d.Seq, d.From, d.To, d.Len), key: fmt.Sprintf("d%08d", d.Seq),
+		// keyed by flow, then by position in the flow: two sockets that send at the same simulated
+		// instant (equal timers fire in an order nobody controls) are ordered by address, not by arrival
+		evs = append(evs, Ev{Kind: "dgram", Desc: d.Desc(), key: fmt.Sprintf("d%s>%s#%08d", d.From, d.To, d.FlowN),
 			Do: func() { r.deliverDgram(p, d, perFlow[d.From+">"+d.To] > 1) }})
 	}
 	sort.SliceStable(evs, func(i, j int) bool { return evs[i].key < evs[j].key })
